@@ -90,35 +90,35 @@ func (c *stmtCtl) fire() bool {
 }
 
 type Proc struct {
-	stmt   stmtCtl
-	idx    int
-	spec   *ProcSpec
-	cancel func()
-	done   bool
-	res    *ProcResult
-	yields int
-	stepHits map[string]int
-	writes int
-	cancelled atomic.Bool // written by the controller, read by the process goroutine
+	stmt               stmtCtl
+	idx                int
+	spec               *ProcSpec
+	cancel             func()
+	done               bool
+	res                *ProcResult
+	yields             int
+	stepHits           map[string]int
+	writes             int
+	cancelled          atomic.Bool // written by the controller, read by the process goroutine
 	startStep, endStep int64
 }
 
 // ProcResult is what a simulated process leaves behind.
 type ProcResult struct {
-	Stdout   string    `json:"stdout"`
-	Stderr   string    `json:"stderr"`
-	ExitCode int       `json:"exit_code"`
-	ErrText  string    `json:"err_text"`
-	ErrType  string    `json:"err_type"`
-	Fatal    bool      `json:"fatal"`
-	IsQueryError bool  `json:"is_query_error"`
-	StdinErrorReturned bool `json:"stdin_error_returned,omitempty"`
-	Panic    string    `json:"panic,omitempty"`
-	Stamps   []OutStamp `json:"-"`
-	StdoutFaults int    `json:"stdout_faults,omitempty"`
-	EndStep  int64     `json:"end_step"`
-	EndTime  time.Duration `json:"end_time_ns"`
-	Uneven   string    `json:"uneven,omitempty"`
+	Stdout             string        `json:"stdout"`
+	Stderr             string        `json:"stderr"`
+	ExitCode           int           `json:"exit_code"`
+	ErrText            string        `json:"err_text"`
+	ErrType            string        `json:"err_type"`
+	Fatal              bool          `json:"fatal"`
+	IsQueryError       bool          `json:"is_query_error"`
+	StdinErrorReturned bool          `json:"stdin_error_returned,omitempty"`
+	Panic              string        `json:"panic,omitempty"`
+	Stamps             []OutStamp    `json:"-"`
+	StdoutFaults       int           `json:"stdout_faults,omitempty"`
+	EndStep            int64         `json:"end_step"`
+	EndTime            time.Duration `json:"end_time_ns"`
+	Uneven             string        `json:"uneven,omitempty"`
 }
 
 // OutStamp: one write to stdout with the scheduler step at which it happened.
@@ -144,7 +144,7 @@ type Kernel struct {
 	// progress counts turns of the controller loop; Execute watches it in REAL
 	// time to detect blocks that synctest does not consider durable (a
 	// sync.Mutex never released, a spin loop, a blocking system call)
-	progress atomic.Int64
+	progress  atomic.Int64
 	rowStride uint64
 	rowCtr    atomic.Uint64
 
@@ -163,9 +163,9 @@ type Kernel struct {
 	ctlGoid uint64
 	pending []arrival
 
-	Hang      string // non-empty: why the run was declared hung
-	LimitHit  bool
-	Stats     RunStats
+	Hang     string // non-empty: why the run was declared hung
+	LimitHit bool
+	Stats    RunStats
 
 	pool *SimPool
 }
@@ -330,11 +330,11 @@ func (w *simWriter) Write(b []byte) (int, error) {
 
 func NewKernel(sc *Scenario, dir string, dec *Decider) *Kernel {
 	k := &Kernel{
-		sc:    sc,
-		Dir:   dir,
-		gs:    map[uintptr]*G{},
+		sc:     sc,
+		Dir:    dir,
+		gs:     map[uintptr]*G{},
 		byGoid: map[uint64]*G{},
-		dec:   dec,
+		dec:    dec,
 	}
 	k.rowStride = uint64(sc.Knobs.RowStride)
 	k.pool = NewSimPool(sc.Knobs.Pool, sc.Knobs.PoolSeed)
